@@ -12,6 +12,7 @@ import MechVerif.Driver.C02
 import MechVerif.Driver.C13
 import MechVerif.Driver.C14
 import MechVerif.Driver.C18
+import MechVerif.Driver.C16
 open MechVerif.Driver
 
 def dispatch (line : String) : String :=
@@ -30,6 +31,8 @@ def dispatch (line : String) : String :=
     | some "lit" => runC13 fields obs
     | some "set" => S14.runC14 fields obs
     | some "join" => S18.runC18 fields obs
+    | some "match" => S16.runC16 fields obs
+    | some "fn" => S16.runC16 fields obs
     | some "sel" => S18.runC18 fields obs
     | some "conv" | some "reshape" | some "toset" => runC12 fields obs
     | some "crc" | some "dmg" | some "sweep" | some "rt" | some "instrs" => runC07 fields obs
